@@ -27,6 +27,9 @@ func (f MultiRsActiveInputFactoryType) New(v uint8) (MultiRsActiveInput, error) 
 }
 
 func (f MultiRsActiveInputFactoryType) NewEnum(v int) (Enum, error) {
+	if v < 0 || v > 255 {
+		return nil, ErrInvalidEnumIdx
+	}
 	return f.New(uint8(v))
 }
 
